@@ -205,11 +205,15 @@ def run_items(modname, items, nproc=None, timeout=600, logdir=None,
             except queue.Empty:
                 break
             fl = it.get('flavour', 'plain')
+            # items may ask not to share a process with items of another
+            # kind (a class that corrupts the heap must not poison the next)
+            wk = (fl, it.get('worker_key'))
             w = workers.get(fl)
-            if w is None or not w.alive():
+            if w is None or not w.alive() or w.key != wk:
                 if w is not None:
                     w.close()
                 w = workers[fl] = _Worker(modname, fl, k, logdir, extra_env)
+                w.key = wk
             r = w.run(it, it.get('timeout', timeout))
             r.setdefault('status', 'ok')
             results[i] = r
